@@ -7,6 +7,7 @@ import (
 	"github.com/taskctl/taskctl/pkg/task"
 	"github.com/taskctl/taskctl/pkg/variables"
 	"math/rand"
+	"os"
 	"strconv"
 	"strings"
 	"sync"
@@ -580,24 +581,52 @@ func runC03Cancelled(col *Collector, tier string, seed int64) {
 	// a second cancellation after a refused run, and a run after a failed context set-up: histories
 	scs = append(scs, cancelScenario{Mode: "sched-twice-conderr", Inflight: 1, Waiting: 1, Point: "in-command"})
 	col.res.Rule += "; plus real-TaskRunner pipelines in child processes: Scheduler.Cancel and condition errors with 0..4 tasks in flight x 0..3 waiting"
-	parallel(len(scs), 12, func(i int) {
-		sc := scs[i]
-		if sc.Mode == "sched-twice-conderr" {
-			sc.Mode = "sched-conderr"
-		}
+	// one run of a scenario, as a case; timed: "did not return" was decided by a bound on wall-clock time
+	one := func(sc cancelScenario) (cs Case, timed bool) {
 		obs, exit, stderr, to := runCancelScenario(sc)
-		cs := Case{Replay: "cancelled-run " + sc.String(), Tags: []string{"real-runner", "mode=" + sc.Mode, fmt.Sprintf("inflight=%d", sc.Inflight)}}
+		cs = Case{Replay: "cancelled-run " + sc.String(), Tags: []string{"real-runner", "mode=" + sc.Mode, fmt.Sprintf("inflight=%d", sc.Inflight)}}
 		cs.NonTrivial = sc.Inflight+sc.Waiting > 0
 		fail, sig := cancelVerdict(sc, obs, exit, stderr, to)
 		switch sig {
 		case "c12-panic", "c12-hang", "c12-cancel-blocks", "c12-run-blocks", "c12-cancel-twice":
 			cs.Fail, cs.Sig = "cancelled pipeline run did not return: "+fail, "c03-cancelled-no-return"
+			timed = sig != "c12-panic"
 		case "":
 		default:
 			col.Note("other-monitor C12: %s", sig)
 		}
+		return cs, timed
+	}
+	var rmu sync.Mutex
+	var again []cancelScenario
+	var first []string
+	parallel(len(scs), 12, func(i int) {
+		sc := scs[i]
+		if sc.Mode == "sched-twice-conderr" {
+			sc.Mode = "sched-conderr"
+		}
+		cs, timed := one(sc)
+		if cs.Fail != "" && timed && os.Getenv("VERIF_NO_RETRY") == "" {
+			// the same rule as in the check of C12 (runCancelProp): a bound on wall-clock time (6 s for a Cancel or a
+			// Schedule to return, 25 s for the scenario) can be missed by correct code on a machine that stalls; the
+			// scenario is repeated on its own after the others - a run that really does not return does not return again
+			rmu.Lock()
+			again, first = append(again, sc), append(first, cs.Fail)
+			rmu.Unlock()
+			return
+		}
 		col.Add(cs)
 	})
+	for k, sc := range again {
+		cs, _ := one(sc)
+		if cs.Fail != "" {
+			cs.Fail += " [twice; the first attempt ended with: " + first[k] + "]"
+		} else {
+			cs.Tags = append(cs.Tags, "passed-on-second-attempt")
+			col.Note("C03 cancelled-run scenario %s exceeded a time bound once (%s) and passed when repeated alone", sc.String(), first[k])
+		}
+		col.Add(cs)
+	}
 }
 
 // pipelines on the REAL runner whose stages use execution contexts (hooks that fail at every position, several up
